@@ -14,7 +14,7 @@ func init() {
 	register(&PropDoc{
 		ID:         "C03",
 		Modules:    []string{".", "trace"},
-		NotDecided: "round-trip equality and the index arithmetic of TraceState.Insert/Delete in general; that String() output re-parses (follows from the character classes only); hex.Decode itself (standard library).",
+		NotDecided: "round-trip equality and the index arithmetic of TraceState.Insert/Delete in general (decided is only that every capacity decision of Insert depends on whether the key is already a member, not that its arithmetic is right); that String() output re-parses (follows from the character classes only); hex.Decode itself (standard library).",
 		Fn:         c03,
 	})
 }
@@ -554,6 +554,8 @@ func c03(c *Ctx) {
 			dsts[1] == "TraceID" && dsts[2] == "SpanID"
 		c.Check(good, "R2", "propagation|TraceContext.extract|fields version(2) trace-id(32) parent-id(16) flags(2) in order", at(px.M, fn.Pos()), strings.Join(dsts, ","), "traceparent field order/widths differ from the W3C format")
 	}
+
+	ruleInsertCapacity(c, tx, "R1")
 
 	defer c03Carriers(c, px)
 	c.Rule("R3", "E5 immutability (alias tracking)", "no method of TraceState writes through the receiver's list: element stores, append and copy destinations are rooted at fresh allocations", 4)
@@ -1249,4 +1251,335 @@ func ctxReturn(info *types.Info, rs *ast.ReturnStmt) (val ast.Expr, accepted, kn
 		return rs.Results[0], constant.BoolVal(tv.Value), true
 	}
 	return nil, false, false
+}
+
+// ruleInsertCapacity: Insert keeps the list's length when it updates a member and evicts the right-most one only when a new
+// key meets a full list, so whatever it decides by comparing a length with the 32-member bound has to know whether the key is
+// already there. The rule is a dependence check, not arithmetic: every branch condition of Insert that compares against the
+// bound must depend on the key — in the condition itself, in a condition it sits under, or through the list it measures
+// (a list the key was already removed from). A bound test on the list as received, with nothing about the key, treats
+// "update" and "insert" alike: it either evicts a member on an update or lets a new key grow a full list.
+// Not decided: that the arithmetic of a key-aware decision is right.
+func ruleInsertCapacity(c *Ctx, tx *PkgIndex, rule string) {
+	fn := c.Fn(tx, rule, "TraceState.Insert")
+	if fn == nil {
+		return
+	}
+	info := tx.Pkg.TypesInfo
+	sig := fn.Obj.Type().(*types.Signature)
+	if sig.Params().Len() < 1 {
+		c.Missing(rule, "TraceState.Insert(key, value)")
+		return
+	}
+	key := types.Object(sig.Params().At(0))
+	bound, _ := tx.Pkg.Types.Scope().Lookup("maxListMembers").(*types.Const)
+	if bound == nil {
+		c.Missing(rule, "trace.maxListMembers")
+		return
+	}
+	g := tx.FG(fn)
+	// what depends on the key: data (assigned from an expression that mentions it) and control (assigned under a condition
+	// that mentions it, or after a jump taken under one)
+	// three kinds of dependence: on the key (K), on the receiver's list (L), and on whether the key is IN the list (M): an
+	// expression that looks at both the key and the list (ts.list[i].Key == key, ts.Delete(key), old.Key != key with old ranging
+	// over the list), or at something that already is M. Only M makes a capacity decision aware; checking the key's syntax does not.
+	kset := map[types.Object]bool{key: true}
+	lset := map[types.Object]bool{}
+	if r := sig.Recv(); r != nil {
+		lset[r] = true
+	}
+	dep := map[types.Object]bool{}
+	capv := map[types.Object]bool{bound: true}
+	mentions := func(e ast.Node, set map[types.Object]bool) bool {
+		if e == nil {
+			return false
+		}
+		hit := false
+		ast.Inspect(e, func(n ast.Node) bool {
+			if id, ok := n.(*ast.Ident); ok {
+				if o := info.Uses[id]; o != nil && set[o] {
+					hit = true
+				}
+			}
+			return !hit
+		})
+		return hit
+	}
+	isM := func(e ast.Node) bool {
+		return e != nil && (mentions(e, dep) || (mentions(e, kset) && mentions(e, lset)))
+	}
+	hasJump := func(n ast.Node) bool {
+		j := false
+		inspectNoLit(n, func(m ast.Node) bool {
+			switch m.(type) {
+			case *ast.BranchStmt, *ast.ReturnStmt:
+				j = true
+			}
+			return !j
+		})
+		return j
+	}
+	type site struct {
+		cond  ast.Expr
+		under bool
+		body  ast.Stmt
+		pos   token.Pos
+	}
+	var sites []site
+	changed := true
+	var walk func(list []ast.Stmt, under bool, collect bool) bool
+	mark := func(l ast.Expr, set map[types.Object]bool) {
+		for {
+			switch x := unparen(l).(type) {
+			case *ast.IndexExpr:
+				l = x.X
+				continue
+			case *ast.SliceExpr:
+				l = x.X
+				continue
+			case *ast.StarExpr:
+				l = x.X
+				continue
+			case *ast.SelectorExpr:
+				if _, isF := info.Uses[x.Sel].(*types.Var); isF {
+					l = x.X
+					continue
+				}
+			}
+			break
+		}
+		if o := objOf(info, l); o != nil && !set[o] {
+			if v, isV := o.(*types.Var); isV && !v.IsField() {
+				set[o] = true
+				changed = true
+			}
+		}
+	}
+	// walk returns whether the statements may jump under a key-dependent condition (what follows is then control-dependent)
+	walk = func(list []ast.Stmt, under bool, collect bool) bool {
+		for _, st := range list {
+			switch s := st.(type) {
+			case *ast.AssignStmt:
+				for i, l := range s.Lhs {
+					var r ast.Node
+					if len(s.Lhs) == len(s.Rhs) {
+						r = s.Rhs[i]
+					} else if len(s.Rhs) == 1 {
+						r = s.Rhs[0]
+					}
+					if under || isM(r) {
+						mark(l, dep)
+					}
+					if mentions(r, kset) {
+						mark(l, kset)
+					}
+					if mentions(r, lset) {
+						mark(l, lset)
+					}
+					if mentions(r, capv) && (s.Tok == token.DEFINE || s.Tok == token.ASSIGN) {
+						mark(l, capv)
+					}
+				}
+			case *ast.IncDecStmt:
+				if under {
+					mark(s.X, dep)
+				}
+			case *ast.DeclStmt:
+				ast.Inspect(s, func(n ast.Node) bool {
+					if vs, ok := n.(*ast.ValueSpec); ok {
+						for i, nm := range vs.Names {
+							if i < len(vs.Values) {
+								if under || isM(vs.Values[i]) {
+									mark(nm, dep)
+								}
+								if mentions(vs.Values[i], kset) {
+									mark(nm, kset)
+								}
+								if mentions(vs.Values[i], lset) {
+									mark(nm, lset)
+								}
+								if mentions(vs.Values[i], capv) {
+									mark(nm, capv)
+								}
+							} else if under {
+								mark(nm, dep)
+							}
+						}
+					}
+					return true
+				})
+			case *ast.ExprStmt:
+				// copy(dst, src) / a method called on a local under the key's control changes what dst holds
+				if call, ok := s.X.(*ast.CallExpr); ok && len(call.Args) > 0 && builtinName(info, call) == "copy" {
+					if under || isM(call) {
+						mark(call.Args[0], dep)
+					}
+					if mentions(call, lset) {
+						mark(call.Args[0], lset)
+					}
+				}
+			case *ast.BlockStmt:
+				if walk(s.List, under, collect) {
+					under = true
+				}
+			case *ast.IfStmt:
+				if s.Init != nil {
+					walk([]ast.Stmt{s.Init}, under, collect)
+				}
+				u := under || isM(s.Cond)
+				if collect {
+					sites = append(sites, site{s.Cond, under, s.Body, s.Pos()})
+				}
+				j := walk(s.Body.List, u, collect)
+				if s.Else != nil {
+					j = walk([]ast.Stmt{s.Else}, u, collect) || j
+				}
+				if j || (u && !under && (hasJump(s.Body) || (s.Else != nil && hasJump(s.Else)))) {
+					under = true
+				}
+			case *ast.ForStmt:
+				if s.Init != nil {
+					walk([]ast.Stmt{s.Init}, under, collect)
+				}
+				u := under || isM(s.Cond)
+				if collect && s.Cond != nil {
+					sites = append(sites, site{s.Cond, under, s.Body, s.Pos()})
+				}
+				// a jump under the key's control inside the body makes the whole body (next iterations) and what follows dependent
+				if walk(s.Body.List, u, false) {
+					u = true
+				}
+				if walk(s.Body.List, u, collect) {
+					under = true
+				}
+				if s.Post != nil {
+					walk([]ast.Stmt{s.Post}, u, collect)
+				}
+			case *ast.RangeStmt:
+				u := under || isM(s.X)
+				for _, kv := range []ast.Expr{s.Key, s.Value} {
+					if kv == nil {
+						continue
+					}
+					if u {
+						mark(kv, dep)
+					}
+					if mentions(s.X, lset) {
+						mark(kv, lset)
+					}
+					if mentions(s.X, kset) {
+						mark(kv, kset)
+					}
+				}
+				if walk(s.Body.List, u, false) {
+					u = true
+				}
+				if walk(s.Body.List, u, collect) {
+					under = true
+				}
+			case *ast.SwitchStmt:
+				if s.Init != nil {
+					walk([]ast.Stmt{s.Init}, under, collect)
+				}
+				for _, cl := range s.Body.List {
+					cc := cl.(*ast.CaseClause)
+					u := under || isM(s.Tag)
+					for _, e := range cc.List {
+						u = u || isM(e) || (s.Tag != nil && isM(&ast.BinaryExpr{X: s.Tag, Op: token.EQL, Y: e}))
+						if collect {
+							sites = append(sites, site{e, under || isM(s.Tag), &ast.BlockStmt{List: cc.Body}, e.Pos()})
+						}
+					}
+					if walk(cc.Body, u, collect) {
+						under = true
+					}
+				}
+			case *ast.LabeledStmt:
+				if walk([]ast.Stmt{s.Stmt}, under, collect) {
+					under = true
+				}
+			}
+		}
+		return under
+	}
+	for round := 0; changed && round < 12; round++ {
+		changed = false
+		walk(fn.Body().List, false, false)
+	}
+	sites = nil
+	walk(fn.Body().List, false, true)
+	// a condition held in a local (full := len(ts.list) >= maxListMembers) is judged where it is tested, with its definition in view
+	var expand func(e ast.Expr, d int) []ast.Expr
+	expand = func(e ast.Expr, d int) []ast.Expr {
+		out := []ast.Expr{e}
+		if d > 3 {
+			return out
+		}
+		ast.Inspect(e, func(n ast.Node) bool {
+			if id, ok := n.(*ast.Ident); ok {
+				if o, isV := info.Uses[id].(*types.Var); isV && !o.IsField() {
+					if def := g.LocalDef(o); def != nil {
+						out = append(out, expand(def, d+1)...)
+					}
+				}
+			}
+			return true
+		})
+		return out
+	}
+	n := 0
+	for _, s := range sites {
+		parts := expand(s.cond, 0)
+		isCap := false
+		for _, p := range parts {
+			ast.Inspect(p, func(m ast.Node) bool {
+				if be, ok := m.(*ast.BinaryExpr); ok {
+					switch be.Op {
+					case token.LSS, token.LEQ, token.GTR, token.GEQ, token.EQL, token.NEQ:
+						if mentions(be.X, capv) || mentions(be.Y, capv) {
+							isCap = true
+						}
+					}
+				}
+				return true
+			})
+		}
+		if !isCap {
+			continue
+		}
+		n++
+		aware := s.under
+		kk, ll := false, false
+		for _, p := range parts {
+			aware = aware || mentions(p, dep)
+			kk = kk || mentions(p, kset)
+			ll = ll || mentions(p, lset)
+		}
+		aware = aware || (kk && ll)
+		// a plain rejection (if len(…) > max { return …, err }) decides nothing about eviction
+		if !aware {
+			if blk, ok := s.body.(*ast.BlockStmt); ok && len(blk.List) == 1 {
+				if rs, isR := blk.List[0].(*ast.ReturnStmt); isR && len(rs.Results) >= 1 {
+					if tv, has := info.Types[rs.Results[len(rs.Results)-1]]; has && !tv.IsNil() && types.Implements(tv.Type, errorIface()) {
+						aware = true
+					}
+				}
+			}
+		}
+		c.Check(aware, rule, "trace|TraceState.Insert|capacity decision #"+itoa(n)+" knows whether the key is already a member", at(tx.M, s.pos), exprStr(s.cond),
+			"Insert compares against the "+itoa(int(constInt64(bound)))+"-member bound ("+exprStr(s.cond)+") with nothing that depends on whether the key is already a member: an update of an existing key on a full list is treated like the insertion of a new one (a member is evicted although the list keeps its length), or a new key is let into a full list")
+	}
+	if n == 0 {
+		// the bound may also be applied without a branch (copy into a destination sized min(n+1, max)): nothing to judge here
+		c.OK(rule, "trace|TraceState.Insert|capacity decisions", at(tx.M, fn.Pos()), "no branch compares against the bound")
+	}
+}
+
+func errorIface() *types.Interface {
+	return types.Universe.Lookup("error").Type().Underlying().(*types.Interface)
+}
+
+func constInt64(k *types.Const) int64 {
+	v, _ := constant.Int64Val(constant.ToInt(k.Val()))
+	return v
 }
